@@ -87,7 +87,7 @@ pub trait BEDLike {
         let end = self.end();
         (start..end)
             .step_by(bin_size as usize)
-            .map(move |x| GenomicRange::new(self.chrom(), x, (x + bin_size).min(end)))
+            .map(move |x| GenomicRange::new(self.chrom(), x, x.saturating_add(bin_size).min(end)))
     }
 
     /// Split into consecutive records with the specified length starting from the end.
@@ -96,10 +96,13 @@ pub trait BEDLike {
     fn rsplit_by_len(&self, bin_size: u64) -> impl Iterator<Item = GenomicRange> {
         let start = self.start();
         let end = self.end();
-        (start + 1..=end)
+        (start..end)
             .rev()
             .step_by(bin_size as usize)
-            .map(move |x| GenomicRange::new(self.chrom(), x.saturating_sub(bin_size).max(start), x))
+            .map(move |x| {
+                let x = x + 1;
+                GenomicRange::new(self.chrom(), x.saturating_sub(bin_size).max(start), x)
+            })
     }
 }
 
